@@ -87,6 +87,12 @@ func (s *raSys) callApp(appName, md string) {
 		tok = "t1"
 	case "empty":
 		ctx = metadata.NewIncomingContext(ctx, metadata.Pairs("app", "", "token", ""))
+	case "emptytoken": // both keys present, exactly one value empty: still a call lacking its credentials
+		ctx = metadata.NewIncomingContext(ctx, metadata.Pairs("app", appName, "token", ""))
+		app = appName
+	case "emptyapp":
+		ctx = metadata.NewIncomingContext(ctx, metadata.Pairs("app", "", "token", "t1"))
+		tok = "t1"
 	default: // a token: t1, t2, a proper prefix of t1 ("t"), an extension of it ("t1x")
 		ctx = metadata.NewIncomingContext(ctx, metadata.Pairs("app", appName, "token", md))
 		app, tok = appName, md
@@ -217,7 +223,7 @@ func TestVerifRpcAuth(t *testing.T) {
 	defer vrt.WriteReport()
 	logx.Disable()
 	stat.SetReporter(nil)
-	ops := []string{"call:none", "call:apponly", "call:tokenonly", "call:empty", "call:t1", "call:t2", "call:t", "call:t1x", "call2:u2", "call2:t1", "store:t1", "store:t2", "store:none", "down", "up", "t0", "t60", "t360"}
+	ops := []string{"call:none", "call:apponly", "call:tokenonly", "call:empty", "call:emptytoken", "call:emptyapp", "call:t1", "call:t2", "call:t", "call:t1x", "call2:u2", "call2:t1", "store:t1", "store:t2", "store:none", "down", "up", "t0", "t60", "t360"}
 	depth := 4
 	if vrt.Thorough() {
 		depth = 8
